@@ -121,6 +121,7 @@ Print Assumptions C13_scale_degenerate_iff.
 
 Example C13_scale_degenerate_iff_nonvacuous : (0 : Q) < 4.
 Proof. reflexivity. Qed.
+Print Assumptions C13_scale_degenerate_iff_nonvacuous.
 
 (* a quarter turn about a point keeps that point: the default reference of Mesh.rotate90 may be read
    before or after the region is turned *)
@@ -141,6 +142,7 @@ Example C13_nonvacuous :
      units r' = ["nm"%string; "m"%string; "s"%string] /\
      qlist_eqb (pmin r') [1; -(1); 0] = true /\ qlist_eqb (pmax r') [3; 3; 1] = true).
 Proof. exact demo_steps. Qed.
+Print Assumptions C13_nonvacuous.
 
 (* non-vacuity for mesh and field roots: a 4x2x1 mesh with two whole-cell subregions and a 3-component
    field satisfy Inv; an odd quarter turn in place followed by a negative per-axis scaling in the copying
@@ -156,3 +158,4 @@ Example C13_nonvacuous_mesh_field :
   (exists f', fstep true (HRot "x" "y" (KInt 3) RNone) demo_field = OK f' /\
      fashape f' = [2; 4; 1; 3]%Z /\ fvshape f' = [2; 4; 1]%Z).
 Proof. exact demo_history. Qed.
+Print Assumptions C13_nonvacuous_mesh_field.
